@@ -49,7 +49,8 @@ def _race_key(block):
     return "|".join(uniq[:4]) or hashlib.sha256(block.encode()).hexdigest()[:12]
 
 
-def post(prop, tier, seed, tmp, bins, results, notes, log, ENV, VERIF):
+def post(prop, tier, seed, tmp, bins, results, notes, log, ENV, VERIF, REPLAYS=None):
+    REPLAYS = REPLAYS or os.path.join(VERIF, "replays")
     if prop == "C19":
         files = {r["config"]: os.path.join(tmp, "transcript-%s.txt" % r["config"]) for r in results}
         base = files.get("asm")
@@ -64,8 +65,8 @@ def post(prop, tier, seed, tmp, bins, results, notes, log, ENV, VERIF):
                     r["partial"].setdefault("extras", {})["transcript_lines_compared_with_asm"] = n
                     r["partial"]["classes"]["c19:transcript:lines-compared-asm-vs-" + cfg] = n
             if diff is not None:
-                os.makedirs(os.path.join(VERIF, "replays"), exist_ok=True)
-                path = os.path.join(VERIF, "replays", "C19-transcript-%s-vs-asm-%d.json" % (cfg, diff))
+                os.makedirs(REPLAYS, exist_ok=True)
+                path = os.path.join(REPLAYS, "C19-transcript-%s-vs-asm-%d.json" % (cfg, diff))
                 json.dump(dict(property="C19", config=cfg, monitor="process-crash", exit="transcript-diff",
                                cmd=["bin/check", "C19"], log_tail="first differing call #%d\nasm   : %s\n%-6s: %s" % (
                                    diff, a[diff] if diff < len(a) else "<missing>", cfg, b[diff] if diff < len(b) else "<missing>")), open(path, "w"), indent=1)
@@ -89,8 +90,8 @@ def post(prop, tier, seed, tmp, bins, results, notes, log, ENV, VERIF):
                 if k in seen:
                     continue
                 seen[k] = block
-                os.makedirs(os.path.join(VERIF, "replays"), exist_ok=True)
-                path = os.path.join(VERIF, "replays", "C20-race-%s.json" % hashlib.sha256(k.encode()).hexdigest()[:12])
+                os.makedirs(REPLAYS, exist_ok=True)
+                path = os.path.join(REPLAYS, "C20-race-%s.json" % hashlib.sha256(k.encode()).hexdigest()[:12])
                 json.dump(dict(property="C20", config=r["config"], monitor="process-crash", exit="data-race", key=k,
                                cmd=r["cmd"], log_tail=block[:6000]), open(path, "w"), indent=1)
                 r.setdefault("extra_stdout", []).append("VIOLATION property=C20 replay=%s" % path)
@@ -99,12 +100,12 @@ def post(prop, tier, seed, tmp, bins, results, notes, log, ENV, VERIF):
                     r["partial"]["violations"] += 1
                 r["rc"] = 1
         notes.append("race detector reports: %d (distinct by outermost library frames: %d)" % (total, len(seen)))
-    if prop == "C17":
-        try:
-            import asmtrace
-            asmtrace.post(tier, seed, tmp, bins, results, notes, log, ENV, VERIF)
-        except ImportError:
-            notes.append("asmtrace module missing: assembly routines not single-stepped")
+    if prop in ("C17", "C19") and any(r["config"] in ("asm", "instr-asm") for r in results):
+        import asmtrace
+        rounds = 2 if tier == "quick" else 24
+        res = asmtrace.run(tmp, seed, rounds, ENV, os.path.join(VERIF, "harness"), os.environ.get("VERIF_OVERLAY") or None, log)
+        log("asm trace: %s%s" % (json.dumps(res["summary"]), (" INCONCLUSIVE: " + res["inconclusive"]) if res["inconclusive"] else ""))
+        asmtrace.apply(prop, res, results, "instr-asm" if prop == "C17" else "asm", notes, REPLAYS, seed)
 
 
 def adjust_rc(prop, rc, results):
